@@ -358,6 +358,20 @@ func TestC18ConnectSetup(t *testing.T) {
 				// requests issued during the handshake must wait for the outcome
 				duringAttempt++
 				var calls []*sim.Call
+				// … among them a persisted publish whose Save is still running
+				// when the CONNACK arrives
+				slowSave := rapid.IntRange(0, 2).Draw(rt, "saveRunsWhenConnackArrives") == 0 && h.Store.Parked() == 0
+				if slowSave {
+					h.Store.ParkNext('S')
+					h.Act("the next Save is slow")
+					calls = append(calls, h.pub(byte(rapid.IntRange(1, 2).Draw(rt, "slowLevel")), false))
+					if h.Store.Parked() == 0 {
+						h.Store.ClearParks()
+						slowSave = false
+					} else {
+						h.label("save-running-when-connack-arrives")
+					}
+				}
 				for i := 0; i < rapid.IntRange(1, 3).Draw(rt, "nreq"); i++ {
 					switch rapid.IntRange(0, 3).Draw(rt, "req") {
 					case 0:
@@ -372,7 +386,7 @@ func TestC18ConnectSetup(t *testing.T) {
 				}
 				for _, c := range calls {
 					r := c.Meta.(*Req)
-					if r.Kind == "pub1" {
+					if r.Kind == "pub1" || r.Kind == "pub2" {
 						continue
 					}
 					switch pre {
@@ -401,6 +415,12 @@ func TestC18ConnectSetup(t *testing.T) {
 					conn.ReleaseConnack(code)
 					wantFail, wantRefused = true, true
 				}
+				if slowSave {
+					h.PollQuiet(quiet, func() bool { return false })
+					h.Act("the slow Save completes")
+					h.Store.Release()
+					h.Store.ClearParks()
+				}
 				h.SettleReader("handshake outcome")
 				for _, c := range calls {
 					h.SettleCall(c)
@@ -408,7 +428,7 @@ func TestC18ConnectSetup(t *testing.T) {
 				if wantFail {
 					for _, c := range calls {
 						r := c.Meta.(*Req)
-						if r.Kind == "pub1" {
+						if r.Kind == "pub1" || r.Kind == "pub2" {
 							continue
 						}
 						h.MustPoll(fmt.Sprintf("call %d %s returning after the failed attempt", c.N, c.Name), func() bool { return h.IsDone(c) })
